@@ -26,10 +26,10 @@ def load_prop(pid):
 
 
 def _work(args):
-    pid, cname, repo, timeout_ms = args
+    pid, cname, repo, timeout_ms, par_hint = args
     import z3  # noqa
     from pyvc.engine import Engine, Unsupported, ContractError
-    from pyvc.solve import discharge
+    from pyvc.solve import discharge_safe as discharge
     P, _ = load_prop(pid)
     c = P.contracts[cname]
     res = dict(contract=cname, target=c.target, kind=c.kind, level=c.level, obligations=[], error=None, gen_s=0.0,
@@ -46,17 +46,51 @@ def _work(args):
         ex_info = getattr(eng, 'last_info', None)
         if ex_info is not None:
             res['file'], res['lines'], res['sha'] = ex_info.file, [ex_info.lineno, ex_info.end_lineno], ex_info.sha
-        for o in obls:
-            discharge(o, timeout_ms)
+        def pack(o):
             d = dict(id=o.id, kind=o.kind, desc=o.desc, status=o.status, backend=o.backend, time=round(o.time, 4),
                      detail=o.detail, model=o.model, goals=len(o.goals))
-            if o.status not in ('proved', 'sat') or len(res['obligations']) < 1:
+            if o.status not in ('proved', 'sat') or o is obls[0]:
                 try:
                     h, g, w = o.goals[0]
                     d['smt'] = ('(hyps %d) goal: %s' % (len(h), g.sexpr()))[:1500]
                 except Exception:
                     pass
-            res['obligations'].append(d)
+            return d
+        par = min(par_hint, max(1, len(obls) // 6))
+        if par <= 1:
+            for o in obls:
+                discharge(o, timeout_ms)
+                res['obligations'].append(pack(o))
+        else:
+            import json as _json
+            kids = []
+            for k in range(par):
+                r, w = os.pipe()
+                pid = os.fork()
+                if pid == 0:
+                    try:
+                        os.close(r)
+                        out = []
+                        for i, o in enumerate(obls):
+                            if i % par == k:
+                                discharge(o, timeout_ms)
+                                out.append((i, pack(o)))
+                        with os.fdopen(w, 'w') as fh:
+                            fh.write(_json.dumps(out, default=str))
+                    finally:
+                        os._exit(0)
+                os.close(w)
+                kids.append((pid, r))
+            got = {}
+            for pid, r in kids:
+                with os.fdopen(r) as fh:
+                    data = fh.read()
+                os.waitpid(pid, 0)
+                for i, d in (_json.loads(data) if data else []):
+                    got[i] = d
+            for i, o in enumerate(obls):
+                res['obligations'].append(got.get(i) or dict(id=o.id, kind=o.kind, desc=o.desc, status='unknown', backend='lost',
+                                                              time=0.0, detail='worker died', model=None, goals=len(o.goals)))
     except (Unsupported, ContractError) as e:
         res['error'] = '%s: %s' % (type(e).__name__, e)
         res['error_kind'] = type(e).__name__
@@ -121,7 +155,9 @@ def main(argv=None):
     P, mod = load_prop(pid)
     timeout_ms = 15000 if tier == 'quick' else 60000
     names = [n for n in P.order if (not a.only or n in a.only.split(','))]
-    jobs = [(pid, n, repo, timeout_ms) for n in names]
+    live = [n for n in names if not P.contracts[n].trusted]
+    par_hint = max(1, min(8, 16 // max(1, len(live))))
+    jobs = [(pid, n, repo, timeout_ms, par_hint) for n in names]
     ncpu = min(16, os.cpu_count() or 4, max(1, len(jobs)))
     nb = 15 if tier == 'quick' else 240
     from concurrent.futures import ThreadPoolExecutor
@@ -277,7 +313,7 @@ def replay(pid, path, repo, seed):
         print('replay: witness no longer fails')
         return 0
     # no witness: re-run the verifier on the contract and report the obligation
-    res = _work((pid, rec['contract'], repo, 30000))
+    res = _work((pid, rec['contract'], repo, 30000, 8))
     bad = [o for o in res['obligations'] if o['status'] not in ('proved', 'sat')]
     if res['error'] or bad:
         print('replay: obligation(s) still undischarged: %s' % (res['error'] or [o['id'] for o in bad]))
